@@ -14,7 +14,7 @@ import re
 from . import common as cm
 from . import c05_gen as G
 
-REQ = ["Scope.PySyntax", "Scope.Finder", "Scope.PySem", "Scope.Wire"]
+REQ = ["Scope.PySyntax", "Scope.Finder", "Scope.PySem", "Scope.Fragment", "Scope.Check", "Scope.Wire"]
 
 # the Python functions Scope/Finder.v transcribes
 ANCHORS = ["pyflyby._autoimp:ScopeStack", "pyflyby._autoimp:symbol_needs_import", "pyflyby._autoimp:_MissingImportFinder",
@@ -33,14 +33,87 @@ def gen_ns(r):
     return lv
 
 
+U2_IMPORTS = [lambda a: ["import", [[["pkg"], a]]], lambda a: ["from", ["m"], [["x", a]]],
+              lambda a: ["import", [[["pkg", "sub"], a]]], lambda a: ["from", ["pkg"], [["sub", a]]]]
+
+
+def to_u2(r, prog):
+    """a stage-2 shaped program -> one of the unused-side fragment u2: no import statement of its own; 1-4 imports `as`
+    fresh names (never a target: bound exactly once) at random top-level positions; some loads redirected to them"""
+    fresh = ["imp%d" % k for k in range(1, r.randint(1, 4) + 1)]
+
+    def ex(e):
+        t = e[0]
+        if t == "load":
+            return ["load", r.choice(fresh), e[2]] if (e[1] not in (G.REG, G.DEC) and r.random() < .2) else e
+        if t == "op":
+            if e[1] == "call" and e[2] and e[2][0][0] == "load" and e[2][0][1] in (G.REG, G.DEC):
+                # registration of a def / lambda: the registered object stays what it is
+                return ["op", e[1], [x if x[0] == "load" else ex(x) for x in e[2]]]
+            return ["op", e[1], [ex(x) for x in e[2]]]
+        if t == "attr":
+            return ["attr", ex(e[1]), e[2]]
+        if t == "lambda":
+            return ["lambda", e[1], [ex(x) for x in e[2]], ex(e[3])]
+        return e
+
+    def pr(P):
+        P = dict(P)
+        for k in ("posonly", "args", "kwonly"):
+            P[k] = [[n, ex(a) if a is not None else None] for n, a in P[k]]
+        for k in ("vararg", "kwarg"):
+            if P[k] is not None:
+                P[k] = [P[k][0], ex(P[k][1]) if P[k][1] is not None else None]
+        P["defaults"] = [ex(x) for x in P["defaults"]]
+        P["kw_defaults"] = [ex(x) if x is not None else None for x in P["kw_defaults"]]
+        return P
+
+    def st(x):
+        t = x[0]
+        if t in ("import", "from"):
+            return ["pass"]
+        if t == "expr":
+            return ["expr", ex(x[1])]
+        if t == "assign":
+            return ["assign", x[1], ex(x[2])]
+        if t == "aug":
+            return ["aug", x[1], x[2], ex(x[3])]
+        if t == "def":
+            return ["def", x[1], [ex(d) for d in x[2]], pr(x[3]), ex(x[4]) if x[4] is not None else None, [st(y) for y in x[5]]]
+        if t == "for":
+            return ["for", x[1], ex(x[2]), [st(y) for y in x[3]], [st(y) for y in x[4]]]
+        if t in ("while", "if"):
+            return [t, ex(x[1]), [st(y) for y in x[2]], [st(y) for y in x[3]]]
+        if t == "with":
+            return ["with", [[ex(e), tg] for e, tg in x[1]], [st(y) for y in x[2]]]
+        if t == "try":
+            return ["try", [st(y) for y in x[1]], [[ty, nm, [st(y) for y in hb]] for ty, nm, hb in x[2]],
+                    [st(y) for y in x[3]], [st(y) for y in x[4]]]
+        return x
+    out = [st(x) for x in prog]
+    for a in fresh:
+        out.insert(r.randint(0, len(out)), r.choice(U2_IMPORTS)(a))
+    return out
+
+
 def make_case(seed, i, kind=None):
     r = cm.rng(seed, "c05", i)
     if kind is None:
-        kind = "exec" if i % 4 != 3 else "free"
+        # 2/10 stage-2 programs (functions and lambdas, no class / comprehension), 1/10 stage 1, the rest as before
+        kind = {0: "s2", 1: "s2", 2: "s1", 4: "u2", 5: "s3", 6: "s3"}.get(i % 10, "exec" if i % 4 != 3 else "free")
     if kind == "exec":
         prog = G.gen_program(r, True)
     elif kind == "s1":
-        prog = G.gen_program(r, True, classes=False, funcs=False, comps=r.random() < .5)
+        prog = G.gen_program(r, True, classes=False, funcs=False, comps=False)
+        kind = "exec"
+    elif kind == "s2":
+        prog = G.gen_program(r, True, classes=False, funcs=True, comps=False)
+        kind = "exec"
+    elif kind == "s3":
+        prog = G.gen_program(r, True, classes=False, funcs=True, comps=True)
+        kind = "exec"
+    elif kind == "u2":
+        prog = to_u2(r, G.gen_program(r, True, classes=False, funcs=True, comps=False))
         kind = "exec"
     else:
         prog = G.gen_program(r, False)
@@ -259,6 +332,9 @@ def decode(model, ids):
            "scan": {"missing": [[ln, dn(d)] for ln, d in model["scan"]["missing"]],
                     "unused": [[ln, dn(f), dn(a)] for ln, f, a in model["scan"]["unused"]]},
            "trace": [[ln, rev[n], r] for ln, n, r in model["trace"]]}
+    for k in ("stage", "star_free", "sound", "precise", "exact", "ustage", "unused_ok"):
+        if k in model:
+            out[k] = model[k]
     if "scandoc" in model:
         out["scandoc"] = {"missing": [[ln, dn(d)] for ln, d in model["scandoc"]["missing"]],
                           "unused": [[ln, dn(f), dn(a)] for ln, f, a in model["scandoc"]["unused"]]}
@@ -582,6 +658,18 @@ def check_case(ctx, case, src, ids, im, mo):
     """im = implementation result, mo = decoded model result"""
     rec = {"i": case.get("i", 0), "kind": case["kind"], "src": src, "ns": case["ns"], "prog": case["prog"]}
     nontriv = False
+    # 0. which fragment the program falls in, and the theorem statements of that fragment evaluated on it
+    stage = mo.get("stage", 0) if mo.get("star_free", True) else 0
+    ctx.bump("fragment:stage%d" % stage if stage else "fragment:outside")
+    if stage == 1 and not mo.get("exact", True):
+        ctx.disagreement("statement check: C05_missing_exact_stage1 is false on this program", rec, None, mo.get("trace"))
+    if stage >= 1 and not (mo.get("sound", True) and mo.get("precise", True)):
+        ctx.disagreement("statement check: stage-%d soundness / precision is false on this program" % stage, rec,
+                         {"sound": mo.get("sound"), "precise": mo.get("precise")}, mo.get("trace"))
+    ustage = mo.get("ustage", 0) if mo.get("star_free", True) else 0
+    ctx.bump("ufragment:stage%d" % ustage if ustage else "ufragment:outside")
+    if ustage >= 1 and not mo.get("unused_ok", True):
+        ctx.disagreement("statement check: stage-%d unused_sound is false on this program" % ustage, rec, None, mo.get("trace"))
     # 1. correspondence
     if isinstance(im["fm"], dict) or "exc" in im["scan"]:
         ctx.bump("impl_exception")
@@ -685,6 +773,8 @@ def run_witnesses(ctx):
     cases, meta = [], []
     for e in ctx.open_findings():
         w = e.get("witness") or {}
+        if w.get("kind") == "unused":
+            continue                              # replayed by run_unused_witnesses
         for k, pw in enumerate(w.get("progs", [])):
             cases.append({"kind": "exec", "i": -1 - len(cases), "prog": pw["prog"], "ns": w["ns"]})
             meta.append((e["id"], pw))
@@ -706,13 +796,96 @@ def run_witnesses(ctx):
             ctx.bump("witness_no_longer_reproduces:" + fid)
 
 
+P0 = {"posonly": [], "args": [], "vararg": None, "kwonly": [], "kwarg": None, "defaults": [], "kw_defaults": []}
+FRAGMENT_WITNESSES = [
+    # (id, kind, program, name): the programs of the *_refuted_star / _orelse / _all / _exact_refuted_stage2 theorems
+    ("star", "free", [["from", ["m"], [["*", None]]], ["expr", ["load", "q", []]]], "q"),
+    ("orelse", "free", [["if", ["op", "const", []], [["pass"]], [["expr", ["load", "q", []]]]]], "q"),
+    ("all", "free", [["all", ["q"]]], "q"),
+    ("unboundlocal", "exec",
+     [["def", "f", [], dict(P0), None, [["expr", ["load", "q", []]], ["assign", [["n", "q"]], ["op", "const", []]]]],
+      ["assign", [["n", "f"]], ["op", "call", [["load", "reg_", []], ["load", "f", []]]]]], "q"),
+]
+
+
+def run_fragment_witnesses(ctx):
+    """the witnesses that delimit the proved fragments (Properties/C05.v: *_refuted_star, _orelse, _all,
+    C05_missing_exact_refuted_stage2), replayed on the implementation, the model and - where the program can run -
+    CPython: the stated outcome must be what all sides show"""
+    cases = [{"kind": k, "i": -100 - j, "prog": prog, "ns": [["reg_", "dec_", "d"]]} for j, (_, k, prog, _) in enumerate(FRAGMENT_WITNESSES)]
+    prepared = [prepare(c) for c in cases]
+    wcases = [{"kind": c["kind"], "src": p[0], "ns": c["ns"]} for c, p in zip(cases, prepared)]
+    impl = cm.run_impl("c05", "impl_case", wcases, timeout_case=20, jobs=1)
+    model = cm.coq_eval_json(REQ, [model_expr(c, p[1], p[2]) for c, p in zip(cases, prepared)])
+    for (wid, kind, _, name), c, p, im, mo0 in zip(FRAGMENT_WITNESSES, cases, prepared, impl, model):
+        mo = decode(mo0, p[2])
+        rec = {"i": c["i"], "kind": kind, "src": p[0], "ns": c["ns"], "prog": c["prog"]}
+        ctx.bump("fragment_witness_replayed")
+        reads = [(ln, r[0]) for ln, n, r in mo["trace"] if n == name]
+        if im.get("fm") != mo["fm"]:
+            ctx.disagreement("fragment witness %s: find_missing_imports" % wid, rec, im.get("fm"), mo["fm"])
+            continue
+        if wid == "star":
+            ok = im["fm"] == [] and any(r == "unbound" for _, r in reads) and mo.get("stage", 0) == 0
+        elif wid in ("orelse", "all"):
+            ok = im["fm"] == [name] and not reads and mo.get("stage", 0) == 0
+        else:
+            excs = im.get("run", {}).get("excs", [])
+            ok = (im["fm"] == [name] and any(r == "unboundlocal" for _, r in reads) and mo.get("stage", 0) == 2
+                  and bool(excs) and excs[0]["type"] == "UnboundLocalError" and excs[0]["name"] == name)
+        if not ok:
+            ctx.disagreement("fragment witness %s does not show the stated outcome" % wid, rec, im, mo.get("trace"))
+
+
+def run_unused_witnesses(ctx):
+    """known findings about the unused report (witness kind 'unused'): the implementation reports the import unused,
+    the model agrees, and the model's PySem trace has a read bound to that very import"""
+    cases, meta = [], []
+    for e in ctx.open_findings():
+        w = e.get("witness") or {}
+        if w.get("kind") != "unused":
+            continue
+        for pw in w.get("progs", []):
+            cases.append({"kind": "free", "i": -200 - len(cases), "prog": pw["prog"], "ns": w["ns"]})
+            meta.append((e["id"], pw))
+    if not cases:
+        return
+    prepared = [prepare(c) for c in cases]
+    wcases = [{"kind": "free", "src": p[0], "ns": c["ns"]} for c, p in zip(cases, prepared)]
+    impl = cm.run_impl("c05", "impl_case", wcases, timeout_case=20, jobs=1)
+    model = cm.coq_eval_json(REQ, [model_expr(c, p[1], p[2]) for c, p in zip(cases, prepared)])
+    for (fid, pw), c, p, im, mo0 in zip(meta, cases, prepared, impl, model):
+        assert p[0] == pw["src"], (p[0], pw["src"])
+        mo = decode(mo0, p[2])
+        rec = {"i": c["i"], "kind": "free", "src": p[0], "ns": c["ns"], "prog": c["prog"]}
+        ctx.bump("witness_replayed")
+        if im["scan"]["unused"] != mo["scan"]["unused"]:
+            ctx.disagreement("known-finding witness %s: scan_for_import_issues.unused" % fid, rec, im["scan"]["unused"], mo["scan"]["unused"])
+            continue
+        reported = any(ln == pw["line"] and full == pw["import"] for ln, full, _ in im["scan"]["unused"])
+        used = any(ln == pw["read_line"] and n == pw["name"] and r[0] == "imp" and r[1] == pw["line"] for ln, n, r in mo["trace"])
+        if reported and used:
+            ctx.known_hit(fid, "import reported unused although a read resolves to it; witness %r" % pw["src"])
+        elif not used:
+            ctx.disagreement("known-finding witness %s: the model's trace has no read bound to the import" % fid, rec, im, mo["trace"])
+        else:
+            ctx.bump("witness_no_longer_reproduces:" + fid)
+
+
 def run(ctx):
     cm.check_anchors(ctx, ANCHORS)
     run_witnesses(ctx)
+    run_unused_witnesses(ctx)
+    run_fragment_witnesses(ctx)
     n = (600 if ctx.quick else 12000) * ctx.scale
     ctx.coverage["rule"] = (
         "terms of Scope/PySyntax.v from one seeded PRNG, rendered to source: 3/4 'executed' programs (no else/handler/"
         "star/__all__, every def and lambda registered and run after the module), 1/4 'free' programs (all constructs); "
+        "of every 10 programs 2 are generated without class / comprehension (stage-2 shaped), 2 without class (stage-3 shaped), 1 "
+        "without any nested scope (stage-1 shaped) and 1 inside fragment 2 of the unused side; the counters fragment:stage1 / "
+        "fragment:stage2 / fragment:stage3 / fragment:outside (and ufragment:*) are the MEASURED number of programs inside "
+        "Fragment.s1_block / s2_block / s3_block (with star-free namespaces) / none - only those inside a stage are "
+        "covered by a theorem, and each of them is also checked against the proved statement by vm_compute; "
         "non-trivial = a name is reported missing, an import unused, or CPython recorded a failing global lookup; "
         "distinct by hash of (source, namespaces)")
     ctx.assumptions += [
